@@ -459,7 +459,7 @@ def _asgi(ctx):
                 errored = True
             if failed is None and not exhausted:
                 if not declared.startswith(out): failed = 'returned bytes are not a prefix of the declared body'
-                elif s.tell() != len(out) and not s.closed: failed = f'tell() = {s.tell()} but {len(out)} bytes were returned'
+                elif s.tell() != len(out): failed = f'tell() = {s.tell()} but {len(out)} bytes were returned' + (' (after close())' if s.closed else '')
             if failed is None and exhausted and s.tell() > len(declared) and not s.closed:
                 failed = f'tell() = {s.tell()} exceeds the declared body ({len(declared)})'
             if failed or last_op: break
